@@ -55,7 +55,7 @@ Section Resumed.
   (* ---- (B) a session, a cut, a reopen, and on ------------------------------------------------------------ *)
   (* the operations of a running session: Puts and queries (no lifecycle call before the cut) *)
   Definition session_op (op : sop) : bool :=
-    match op with OpPut _ _ | OpHas _ | OpGet _ | OpGetSize _ | OpKeys | OpRoots => true | _ => false end.
+    match op with OpPut _ _ | OpPutMany _ | OpHas _ | OpGet _ | OpGetSize _ | OpKeys | OpRoots => true | _ => false end.
   (* the front-end the handle was made with *)
   Definition front_of_kind (f : front) : Prop :=
     match f with FSt _ => exists w, k = KStorage w | _ => k = KBlockstore end.
@@ -65,6 +65,43 @@ Section Resumed.
   Proof.
     intros Hf Hk. unfold fe_put. rewrite Hk. destruct f as [|r|]; cbn [impl_step front_of_kind] in *;
       try (rewrite Hf; reflexivity). destruct Hf as (w & ->). reflexivity.
+  Qed.
+
+  (* the stored list C12's abs_put computes is the reference map's *)
+  Lemma abs_put_map s m c d p :
+    R o roots hb s m -> ResumeInv.Inv k o nilroots roots s (m_blocks m) -> cid_parse c = Some p ->
+    ResumeInv.abs_put o nilroots roots (m_blocks m) (c, d) = m_blocks (fst (m_put_one o m c d p)).
+  Proof.
+    intros HR HI Hp. pose proof HR as (HIm & _).
+    unfold ResumeInv.abs_put. cbn [fst snd]. rewrite Hp. rewrite <- (ResumeInv.inv_idx _ _ _ _ _ _ HI).
+    rewrite (should_put_spec o s hb (m_blocks m) c p HIm (R_parses o roots hb s m HR) Hp). unfold m_put_one.
+    destruct (negb (w_storeid o) && is_identity p); [reflexivity|].
+    destruct (w_maxcid o <? blen c); [reflexivity|].
+    destruct (negb (w_dups o) && m_present o (m_blocks m) c); reflexivity.
+  Qed.
+
+  (* PutMany on a running session: C12's invariant follows the map block by block *)
+  Lemma put_loop_rinv l : forall s m,
+    R o roots hb s m -> ResumeInv.Inv k o nilroots roots s (m_blocks m) -> Forall (put_ok o) l ->
+    51 + w_dpad o + w_ipad o + ws_pos s + blks_size l < two63 ->
+    ResumeInv.Inv k o nilroots roots (fst (put_many_loop s l)) (m_blocks (fst (m_put_loop o m l))).
+  Proof.
+    destruct Hpar as [Hdec Hprag Hmaxh Hcidmax].
+    induction l as [|[c d] t IH]; intros s m HR HI Hall Hsz; [exact HI|].
+    assert (Hh63 : blen hb < two63).
+    { pose proof (ResumeInv.inv_fits _ _ _ _ _ _ HI) as Hfit. unfold ResumeInv.fits, ResumeInv.hsz, ResumeInv.hdr, ld_size in Hfit.
+      fold hb in Hfit. lia. }
+    inversion Hall as [|? ? Hput Hall']; subst. cbn [put_many_loop m_put_loop blks_size fold_right fst snd] in *.
+    fold (blks_size t) in Hsz.
+    destruct (cid_parse c) as [p|] eqn:Hp; [|exact HI].
+    destruct (put_one_sim o roots hb Hmaxh Hh63 s m c d p HR Hp Hput) as (s' & m' & r & H1 & H2 & HR' & Hpos).
+    pose proof (abs_put_map s m c d p HR HI Hp) as Habs. rewrite H2 in Habs. cbn [fst] in Habs.
+    assert (HI' : ResumeInv.Inv k o nilroots roots s' (m_blocks m')).
+    { rewrite <- Habs. replace s' with (fst (put_one s c d p)) by (rewrite H1; reflexivity).
+      apply (ResumeInv.put_one_inv hdrdec k o nilroots roots (ResumeInv.Build_params_ok _ _ _ _ Hdec Hprag Hmaxh Hcidmax)); [exact HI|exact Hp|].
+      rewrite Habs. destruct HR' as ([_ Hp' _] & _). unfold ResumeInv.fits, ResumeInv.hsz, ResumeInv.hdr. fold hb.
+      rewrite blen_app, blen_ld in Hp'. unfold sections in Hp'. unfold enc_sections. lia. }
+    rewrite H1, H2. destruct r; try exact HI'. apply IH; try assumption. lia.
   Qed.
 
   Lemma session_step f s m op :
@@ -80,6 +117,12 @@ Section Resumed.
       fold hb in Hfit. lia. }
     destruct op as [c d|l|c|c|c| | | | | | ]; try discriminate Hs;
       try (destruct f; cbn [impl_step spec_step fst]; exact HI).
+    2:{ (* PutMany (blockstore variants; the storage front-end does not offer it) *)
+      pose proof HR as (_ & _ & _ & Hcm & Hfm & _).
+      rewrite (ResumeInv.inv_closed _ _ _ _ _ _ HI) in Hcm. rewrite (ResumeInv.inv_fin _ _ _ _ _ _ HI) in Hfm.
+      destruct f as [|r0|]; cbn [impl_step spec_step fst]; try exact HI;
+        unfold bs_put_many, m_put_many; rewrite (ResumeInv.inv_closed _ _ _ _ _ _ HI), (ResumeInv.inv_fin _ _ _ _ _ _ HI), <- Hcm, <- Hfm;
+        apply put_loop_rinv; try assumption; cbn [op_size] in Hsz; exact Hsz. }
     (* Put *)
     rewrite (put_is_fe_put f s c d Hf (ResumeInv.inv_kind _ _ _ _ _ _ HI)).
     destruct (step_sim hdrdec o roots hb Hdec Hmaxh Hh63 f s m (OpPut c d) HR Hop) as (s' & m' & r & H1 & H2 & HR' & Hpos).
